@@ -133,6 +133,25 @@ INFO.update({
  "X8-a": ("graph.py vectorised; compress() memoised per instance and invalidated by every mutator except local_complementation", "compress(), local_complementation(v) at a vertex with >= 2 neighbours, compress() again on the same object"),
  "X8-b": ("find_local_clifford_layer table driven / vectorised; Graph.local_complementation rewritten with an early exit `neighbours.sum() < 2` on neighbour INDICES", "local complementation at a vertex v >= 2 whose neighbourhood is exactly {0, 1}"),
 })
+# wave 5: behaviour-preserving refactorings that contain a CORRECT instance of a pattern that is easy to get wrong
+INFO.update({
+ "R9-a": ("circuit_lookup: generator tokenizer + dispatch tables per gate family, one generic _lookup_table(cache, filename, build), importlib.resources.files with the legacy file-name check", "behaviour-preserving refactoring"),
+ "R9-b": ("circuit_lookup: private _TableFamily(Generic[T]) holding prefix, parser and late-bound access to the public cache dictionaries; MUB header/line parsing in helpers", "behaviour-preserving refactoring"),
+ "R10-a": ("stabilizer_circuits: named pipeline steps and two bounded, lock-protected LRU memos (hand-written class) of the class id and of the local-Clifford layer, keyed by the full contents of R and S (+ graph id), copies on every hand-out", "behaviour-preserving refactoring (correct memo)"),
+ "R10-b": ("stabilizer_circuits: provably equivalent closed-form fast path for product-state stabilizers (class 0), plan helpers, logging", "behaviour-preserving refactoring (correct fast path)"),
+ "R11-a": ("graph.py: compress/decompress via packbits/unpackbits with the documented bit order, cached read-only index helper, fill_diagonal/outer", "behaviour-preserving refactoring (correct vectorised codec)"),
+ "R11-b": ("connectivity_support: one tuple of supported configurations as source of truth, fresh list on every call, match-statement dispatch for the graph builders", "behaviour-preserving refactoring"),
+ "R12-a": ("tomography: shared private builder that snapshots measured_qubits as before, constants, _pull_back_z_pauli / _embed_paulis helpers, common fitter base class", "behaviour-preserving refactoring"),
+ "R12-b": ("tomography: count-key marginalisation through a lazily built index table (same bit order), all Z-type Paulis pulled back as one PauliList", "behaviour-preserving refactoring (correct bit-order rewrite)"),
+ "R13-a": ("find_local_clifford_layer split into system builder, lazy span generator, validity test, decoder; dict from block to gate names in append order", "behaviour-preserving refactoring"),
+ "R13-b": ("f2_algebra rref/null_space vectorised, linear system by einsum, block-wise vectorised candidate filter returning the first valid candidate of the original order", "behaviour-preserving refactoring (correct vectorisation)"),
+ "R14-a": ("rotate_stabilizer_into_state: pivot cases as lookup tables, helpers, same circuit object returned when no sign needs repair", "behaviour-preserving refactoring (correct early exit)"),
+ "R14-b": ("Stabilizer.__init__ dispatching to one private _init_from_* per input kind, Pauli <-> (x,z) tables, reversed export as body[::-1]", "behaviour-preserving refactoring"),
+ "R15-a": ("cross-cutting: one Connectivity alias in a new _types.py, table-driven support check, match statements, importlib.resources.files (six modules)", "behaviour-preserving refactoring"),
+ "R15-b": ("dead code removed, private helpers, vectorised candidate check in find_local_clifford_layer (reshape + mat_mul with the basis)", "behaviour-preserving refactoring"),
+ "R16-a": ("mub_circuits through a private _lookup_mub_table that gates first, info dictionary from a NamedTuple, determine_lc_class via a dispatch table, linear_index helpers renamed", "behaviour-preserving refactoring"),
+ "R16-b": ("lc_classes: vectorised count_identity_structures behind a strict guard, lru_cache memos keyed on the qubit count with read-only results", "behaviour-preserving refactoring (correct memo)"),
+})
 XPROP = {"X1-a": "C13", "X1-b": "C07", "X2-a": "C13", "X2-b": "C09", "X3-a": "C11", "X3-b": "C11", "X4-a": "C12", "X4-b": "C13",
          "X5-a": "C08", "X5-b": "C13", "X6-a": "C13", "X6-b": "C13", "X7-a": "C13", "X7-b": "C04", "X8-a": "C19", "X8-b": "C19"}
 
